@@ -97,7 +97,7 @@ fn every_method_pass() -> Vec<Op> {
 fn boundary_pass() -> Vec<Op> {
     let s = |x: &str| x.to_string();
     let mut v = vec![Op::MkdirP(s("/q"))];
-    for (i, m) in [0u32, 0o1, 0o400, 0o644, 0o777, 0o4755, 0o7777, 0o100644, 0o40755].iter().enumerate() {
+    for (i, m) in [0u32, 0o1, 0o400, 0o644, 0o777, 0o4755, 0o7777, 0o100644, 0o40755, 0o100000, 0o40000].iter().enumerate() {
         let (f, d, c, cc) = (format!("/q/f{}", i), format!("/q/d{}", i), format!("/q/c{}", i), format!("/q/cc{}", i));
         v.extend(vec![
             Op::MkfileM(f.clone(), *m),
